@@ -591,6 +591,23 @@ def failing_cases(ctx: Ctx) -> List[Case]:
     ]
     for t in ["python", "cpp", "golang", "csharp", "java", "typescript"]:
         out.append(Case("missing_snippets", t, d / "multi/meta_model.py", _base_snippets(ctx, t), True))
+    # every kind of front-end error message (catalogue shared with C03): messages that print a set or a dict
+    # unsorted differ between hash seeds
+    from harness.props import c03
+
+    defects = dict(c03.PAIR_DEFECTS)
+    defects["ctor_set_mismatch"] = (
+        "class {N}:\n    first_item: int\n    second_item: int\n    third_item: int\n    fourth_item: int\n\n"
+        "    def __init__(self, first_item: int, second_item: int, third_item: int, fourth_item: int, fifth_item: int) -> None:\n"
+        "        self.first_item = first_item\n        self.second_item = second_item\n"
+        "        self.third_item = third_item\n        self.fourth_item = fourth_item\n"
+    )
+    droot = ctx.scratch() / "defect_models"
+    droot.mkdir(exist_ok=True)
+    for name, body in sorted(defects.items()):
+        mp = droot / f"{name}.py"
+        mp.write_text(c03.PAIR_OK.format(N="First") + "\n\n" + body.format(N="Second") + c03.PAIR_TAIL)
+        out.append(Case("defect_" + name, "jsonschema", mp, d / "multi/snippets/jsonschema", True))
     return out
 
 
